@@ -365,6 +365,9 @@ fn classify(rule: &str, input: &str, what: &str) -> String {
                 }
             }
         }
+        if input.contains("''") || input.contains("\"\"") {
+            return format!("{rule}_empty_quoted_string");
+        }
         let slash_word = input
             .split([' ', '\t'])
             .any(|w| w.matches('/').count() >= 2);
